@@ -186,14 +186,13 @@ def run(tier, argv):
             ck = f"sampler-nested-vectorisation|{dname}|m={m}"
             chk.case(ck)
             try:
-                f = lambda: modular_vmap(lambda: modular_vmap(lambda mu: dist.sample(mu, 1e-3), in_axes=0)(mus), axis_size=m)()
+                f = lambda: modular_vmap(lambda: modular_vmap(lambda mu: dist.sample(mu, 0.5), in_axes=0)(mus), axis_size=m)()
                 out = np.asarray(seed(f)(key2))
+                # (no uniqueness test here: float32 draws at location 300 sit on a coarse grid; independence of lanes is C08's)
                 if out.shape != (m, 4):
                     chk.violation(ck, f"shape {out.shape}, the outer axis of size {m} must come first: ({m}, 4)", {})
-                elif np.max(np.abs(out - np.asarray(mus)[None, :])) > 1.0:
+                elif np.max(np.abs(out - np.asarray(mus)[None, :])) > 10.0:
                     chk.violation(ck, "entry [i, j] is not a draw with lane j's location (the lanes are transposed)", {})
-                elif len(np.unique(out)) != out.size:
-                    chk.violation(ck, "repeated draws across lanes", {})
             except Exception as ex_:
                 chk.violation(ck, f"raised {type(ex_).__name__}: {str(ex_).splitlines()[0][:140] if str(ex_) else ''}", {})
     # user-wrapped distributions behave the same
